@@ -152,7 +152,11 @@ class SensitiveWordAnonymizer(object):
         sensitive_words_ = {w.lower() for w in sensitive_words}
 
         self.salt = salt
-        self.sens_regex = self._generate_sensitive_word_regex(sensitive_words_)
+        # Match the words as given, too: lower() cannot always be undone by
+        # case-insensitive matching (e.g. "İ".lower() is two characters long)
+        self.sens_regex = self._generate_sensitive_word_regex(
+            sensitive_words_.union(sensitive_words)
+        )
         self.sens_word_replacements = {}
         # Figure out which reserved words may clash with sensitive words, so they can be preserved in anonymization
         self.conflicting_words = self._generate_conflicting_reserved_word_list(
